@@ -293,10 +293,21 @@ class Contract(object):
         c = Ctx(interp, st, fr)
         caller = short_name(fr.qualname) if fr is not None else '?'
         callee = short_name(self.name)
+        assume_pre = self.name in getattr(interp, 'assume_pre', ())
         for k, f in self.requires(c, Args(bound)).items():
+            if assume_pre:
+                # the caller under verification only orchestrates: the callee's domain conditions on the DATA are
+                # assumptions of the property (listed in the evidence), not obligations of the orchestration
+                for x in flatten(f):
+                    if not isinstance(x, bool):
+                        st.assume(x)
+                continue
             st.oblige('%s/call.%s/pre.%s' % (caller, callee, k), f, kind='pre')
         rz = self.raises(c, Args(bound))
         for exc, cond in rz.items():
+            may = isinstance(cond, tuple) and cond[0] == 'may'
+            if may:
+                cond = band(cond[1], Sc(fresh_bool('raises')))
             if cond is False:
                 continue
             rs = st.fork()
@@ -307,12 +318,25 @@ class Contract(object):
             interp._pending_forks.append(rs)
             st.assume_pc(bnot(cond))
         old_st = st.fork()
+        st.events.append(('call', self.name, dict(bound)))
         self.havoc(c, Args(bound))
         res = self.result(c, Args(bound))
         res = st.box(res)
-        post = self.ensures(c, Args(bound), res, Ctx(interp, old_st, fr))
-        # derived clauses follow from the others: not assumed again (keeps queries small)
-        st.assume([f for k, f in post.items() if k not in self.derived])
+        st.events.append(('ret', self.name, res))
+        try:
+            post = self.ensures(c, Args(bound), res, Ctx(interp, old_st, fr))
+        except (AttributeError, KeyError, TypeError, IndexError):
+            post = {}       # structural clauses that only make sense for the verification set-up
+        # derived clauses follow from the others: not assumed again (keeps queries small).  Clauses that
+        # evaluate to a Python bool are structural facts established by result()/havoc(): nothing to assume
+        # (and a structural False must never become an assumption).
+        for k, f in post.items():
+            if k in self.derived:
+                continue
+            for x in flatten(f):
+                if isinstance(x, bool):
+                    continue
+                st.assume(x)
         return res
 
     # ------------------------------------------------------------------
@@ -339,6 +363,15 @@ class Contract(object):
         old_st = st.fork()
         tracked = self._tracked(st, args)
         interp._pending_forks = []
+        interp.assume_pre = tuple(getattr(self, 'assume_pre_of', ()))
+        for key, spec in getattr(self, 'loops', {}).items():
+            if isinstance(key, tuple):
+                if key[0] == variant:
+                    interp.loop_specs[(self.name, key[1])] = spec
+                else:
+                    interp.loop_specs.pop((self.name, key[1]), None) if interp.loop_specs.get((self.name, key[1])) is spec else None
+            else:
+                interp.loop_specs[(self.name, key)] = spec
         finals = interp.run_function(self.name, dict(args), st)
         sn = short_name(self.name)
         n_paths = {'return': 0, 'raise': 0}
@@ -356,6 +389,8 @@ class Contract(object):
                         continue
                     fs.oblige('%s/post.%s' % (sn, k), f, kind='post')
                 for exc, cond in rz.items():
+                    if isinstance(cond, tuple) and cond[0] == 'may':
+                        continue        # may raise under cond, need not
                     fs.oblige('%s/raises.%s.must' % (sn, exc), bnot(cond) if not isinstance(cond, Forall) else cond, kind='raises')
                 self._frame(fs, old_st, tracked, sn)
             elif fs.status == 'raise':
@@ -364,6 +399,8 @@ class Contract(object):
                 allowed = rz.get(exc)
                 if allowed is None and exc != 'Exception' and 'Exception' in rz:
                     allowed = rz['Exception']
+                if isinstance(allowed, tuple) and allowed[0] == 'may':
+                    allowed = allowed[1]
                 if allowed is None:
                     fs.oblige('%s/raises.unexpected(%s@%s)' % (sn, exc, fs.exc[2]), False, kind='raises')
                 else:
